@@ -12,7 +12,7 @@ pub fn def() -> PropDef {
     PropDef {
         info: PropInfo {
             id: "C06",
-            rule: "byte strings from the near-valid generator (a well-formed program built by construction over all supported opcodes, then 0-2 targeted mutations: opcode byte, register nibbles, jump/call target classes {0, self, next, last, one past the end, -1, second half of an lddw, in range, out of range}, immediate classes, last instruction, truncation, broken lddw), plus fully random short strings and the length classes 0 / 8,000,000 / 8,000,008 bytes. Oracle: independent reference verifier written from the statement; the real verdict is taken from new() and set_program() of all four VM kinds, which must agree. Non-trivial = accepted by the reference, or rejected with exactly one violated rule (near miss); distinct by hash of the bytes.",
+            rule: "byte strings from the near-valid generator (a well-formed program built by construction over all supported opcodes, then 0-2 targeted mutations: opcode byte, register nibbles, jump/call target classes {0, self, next, last, one past the end, -1, second half of an lddw, in range, out of range}, immediate classes, last instruction, truncation, broken lddw), plus fully random short strings and the length classes 0 / 8,000,000 / 8,000,008 bytes. Oracle: independent reference verifier written from the statement; the real verdict is taken from new() and set_program() of all four VM kinds, which must agree; every accepted program is additionally re-loaded, on a VM that already holds it, as prefixes of the same buffer (same start address, other lengths), each of which must be judged on its own bytes. Non-trivial = accepted by the reference, or rejected with exactly one violated rule (near miss); distinct by hash of the bytes.",
             assumptions: &["reference verifier harness/vrun/src/refver.rs states the property correctly"],
         },
         run,
@@ -42,9 +42,52 @@ pub fn real_verdicts(prog: &[u8]) -> Result<Vec<(&'static str, bool)>, String> {
     })
 }
 
+/// A VM that already holds `prog` is handed prefixes of the very same buffer (slices that start
+/// at the same address): each must be judged on its own bytes.
+fn check_alias_reload(prog: &[u8]) -> Verdict {
+    let n = prog.len();
+    let cuts = [n - 8, n - 3, n / 2 / 8 * 8, 8, 0, n - 16];
+    for cut in cuts {
+        if cut >= n {
+            continue;
+        }
+        let want = refver::violations(&prog[..cut]).is_empty();
+        let p = prog.to_vec();
+        let got = catch(move || {
+            let mut a = rbpf::EbpfVmMbuff::new(Some(&p)).expect("accepted program");
+            let r1 = a.set_program(&p[..cut]).is_ok();
+            let mut b = rbpf::EbpfVmFixedMbuff::new(Some(&p), 0x40, 0x50).expect("accepted program");
+            let r2 = b.set_program(&p[..cut], 0x40, 0x50).is_ok();
+            (r1, r2)
+        });
+        match got {
+            Err(m) => return Verdict::fail(panic_signature(&m), format!("set_program panicked on a {cut}-byte prefix of the loaded program: {m}")),
+            Ok((r1, r2)) => {
+                if r1 != want || r2 != want {
+                    return Verdict::fail(
+                        if want { "reload:rejects-well-formed-prefix" } else { "reload:accepts-malformed-prefix" },
+                        format!(
+                            "a VM holding the {n}-byte program below was given its own first {cut} bytes: set_program returned Ok={r1}/{r2}, the reference verifier says {}\n{}",
+                            if want { "accept" } else { "reject" },
+                            isa::listing(prog, 16).join("\n")
+                        ),
+                    );
+                }
+            }
+        }
+    }
+    Verdict::Pass
+}
+
 pub fn check_bytes(prog: &[u8]) -> Verdict {
     let viol = refver::violations(prog);
     let want = viol.is_empty();
+    if want && prog.len() >= 16 && prog.len() <= 4096 {
+        let v = check_alias_reload(prog);
+        if !matches!(v, Verdict::Pass) {
+            return v;
+        }
+    }
     match real_verdicts(prog) {
         Err(m) => Verdict::fail(panic_signature(&m), format!("verifier panicked: {m}\nreference: {:?}", viol)),
         Ok(v) => {
